@@ -157,7 +157,11 @@ def gen_case(seed, tier, index=0):
     else:
         case_poison = None
     if family == "template":
-        t = rng.pick(["nothing", "nolicence", "nolicence-holders-only", "nocopyright"])
+        t = rng.pick(["nothing", "nolicence", "nolicence-holders-only", "nocopyright", "firstonly"])
+        if t == "firstonly":
+            # two holders, a template that keeps one: every file of the batch loses a line and must be refused, the
+            # first one and the last one alike
+            opts["holders"] = rng.sample(A.SAFE_HOLDERS, 2)
         if t == "nolicence-holders-only":
             opts["licenses"] = []
             t = "nolicence"
@@ -240,6 +244,12 @@ def gen_case(seed, tier, index=0):
                 alias_names.append("d0/alias.py")
     names = [m["path"] for m in metas] + alias_names
     rng.shuffle(names)
+    if usage == "unsupported-line" and rng.chance(0.4):
+        # the offending file is not named: it is found below a directory that is (usage errors come before any writing,
+        # however the file got into the batch)
+        import posixpath as _pp
+        names = sorted({_pp.dirname(n) for n in names})
+        opts["recursive"] = True
     cwd, named_dirs, root_opt = ".", None, []
     if family != "usage" and rng.chance(0.25):
         # recursive form, started from a sub-directory with paths like '../d1' (and --root ..)
@@ -311,6 +321,8 @@ def predict(case):
                     fail = bool(opts["licenses"]) or existing_lic
                 elif t == "nocopyright":
                     fail = bool(opts["holders"]) or (findable and "SPDX-FileCopyrightText" in text)
+                elif t == "firstonly":
+                    fail = len(opts["holders"]) + (1 if findable and "SPDX-FileCopyrightText" in text else 0) > 1
             if case["family"] == "poison" and case.get("poison_tail"):
                 fail = True
             elif case["family"] == "poison" and eff_style:
